@@ -160,6 +160,17 @@ S7_RULE = ('random provider chains (structured generator: downward part built fo
            'distinct = distinct provider-list descriptions')
 
 
+def static_dup(case):
+    """some type is supplied more than once in the static part of the bound chain"""
+    seen = collections.Counter()
+    for f in case.s7_funcs():
+        if f['inc'] == '1' and (f['group'] in ('literal', 'static') or f['class'] == 'init-func'):
+            for t in f['out'].split(','):
+                if t != '-':
+                    seen[t] += 1
+    return any(v > 1 for v in seen.values())
+
+
 def s7_check(ctx, prop_id, cases, extra_filter=None):
     n_bound = n_cmp = 0
     distinct = set()
@@ -204,6 +215,10 @@ def s7_check(ctx, prop_id, cases, extra_filter=None):
         if who_s is not None:
             if who_s in ('C01', 'C02', 'C05') and 'failing' in c.features() and prop_id == 'C07':
                 who_s = 'C07'
+            if who_s == 'C01' and prop_id == 'C05' and static_dup(c):
+                # a type supplied more than once before invoke (values, static injectors, init arguments): which of them a
+                # provider is handed is a matter of the order in which they take effect
+                who_s = 'C05'
             if who_s == prop_id or prop_id == 'C17' or (who_s == 'C04' and prop_id in ('C01', 'C02', 'C05', 'C07')):
                 ctx.violations.append(('implementation trace differs from Spec at event %d (case %s): impl `%s` vs spec `%s`'
                                        % (i_s, c.key, (c.t + ['<none>'])[min(i_s, len(c.t))], (c.s + ['<none>'])[min(i_s, len(c.s))]),
@@ -359,6 +374,16 @@ def c05(ctx):
                 if not ok:
                     ctx.violations.append(('%s (case %s)' % (d, c.key), write_replay(ctx, 'case_%s.txt' % c.key, c.text()), True))
     conc_part(ctx, ['static'], 'literals and static injectors take effect before any per-invocation provider, also for invocations racing on the first call')
+    # the listed order also has to survive earlier uses of the collection (Bind, Append, ...): API histories
+    hl, hraces, hstderr = vcheck.history_run(ctx, 40 if ctx.tier == 'quick' else 400)
+    nh = 0
+    for l in hl or []:
+        if l.startswith('history diff'):
+            nh += 1
+            if nh <= 2:
+                ctx.violations.append(('after a history of API operations a collection no longer lists / runs its providers as written: %s' % l[13:220],
+                                       write_replay(ctx, 'history_%d.txt' % nh, '\n'.join(hl[:200])), True))
+    ctx.cov['history_diffs'] = nh
     if len(ctx.violations) > 5:
         ctx.notes.append('%d violations; first 5 reported' % len(ctx.violations)); ctx.violations.sort(key=lambda v: not v[2]); ctx.violations = ctx.violations[:5]
     ctx.assumptions += ['provider bodies are the harness\'s scripted bodies (any Beh in the theorem)']
